@@ -143,13 +143,31 @@ func (fdb *fsDb) Put(ctx context.Context, key []byte, val []byte) error {
 	}
 	logg.TraceCtxf(ctx, "fs put", "key", key, "lk", lk, "flk", flk, "val", val)
 	if flk.Translation != "" {
-		err = ioutil.WriteFile(flk.Translation, val, 0600)
-		if err != nil {
-			return err
-		}
-		return nil
+		return writeAtomic(flk.Translation, val)
 	}
-	return ioutil.WriteFile(flk.Default, val, 0600)
+	return writeAtomic(flk.Default, val)
+}
+
+// write the value to a temporary file in the same directory and rename it into place,
+// so that a crash at any point leaves either the complete old or the complete new record.
+func writeAtomic(fp string, val []byte) error {
+	f, err := os.CreateTemp(path.Dir(fp), ".tmp-")
+	if err != nil {
+		return err
+	}
+	tmp := f.Name()
+	_, err = f.Write(val)
+	cerr := f.Close()
+	if err == nil {
+		err = cerr
+	}
+	if err == nil {
+		err = os.Rename(tmp, fp)
+	}
+	if err != nil {
+		os.Remove(tmp)
+	}
+	return err
 }
 
 // Close implements the Db interface.
